@@ -693,9 +693,11 @@ func (sd *SessionData) expireAccessTokenChunks(w http.ResponseWriter) {
 	for i := 0; ; i++ {
 		sessionName := fmt.Sprintf("%s_%d", accessTokenCookie, i)
 		session, err := sd.manager.store.Get(sd.request, sessionName)
-		if err != nil || session.IsNew {
-			break
+		if session == nil || (err == nil && session.IsNew) {
+			break // no cookie under this name: end of the chunk sequence
 		}
+		// A chunk cookie that cannot be decoded (err != nil) is stale as well and must not
+		// end the scan: the chunks behind it would survive and corrupt the next token.
 		session.Options.MaxAge = -1
 		session.Values = make(map[interface{}]interface{})
 		if w != nil {
@@ -719,9 +721,11 @@ func (sd *SessionData) expireRefreshTokenChunks(w http.ResponseWriter) {
 	for i := 0; ; i++ {
 		sessionName := fmt.Sprintf("%s_%d", refreshTokenCookie, i)
 		session, err := sd.manager.store.Get(sd.request, sessionName)
-		if err != nil || session.IsNew {
-			break
+		if session == nil || (err == nil && session.IsNew) {
+			break // no cookie under this name: end of the chunk sequence
 		}
+		// A chunk cookie that cannot be decoded (err != nil) is stale as well and must not
+		// end the scan: the chunks behind it would survive and corrupt the next token.
 		session.Options.MaxAge = -1
 		session.Values = make(map[interface{}]interface{})
 		if w != nil {
